@@ -240,6 +240,26 @@ var c18Pkgs = []string{
 	"acme/",                                            // trailing separator: unparsable
 }
 
+func init() {
+	for _, g := range c18RootPkgs {
+		c18Pkgs = append(c18Pkgs, g[0], g[1])
+	}
+}
+
+// c18RootPkgs: packages WITHOUT an organisation segment (the repository is a single path
+// element), per registry: a registry with a port, ghcr.io, and the (non Docker Hub) default
+// registry a bare name gets. Two DIFFERENT root-level repositories of one registry share no
+// organisation (OrgDiffer takes the first path element of the repository: the repository
+// itself); two references to the SAME repository do. Each group also has a nested path and
+// an ordinary org/package reference of the same registry.
+var c18RootPkgs = [][]string{
+	{"registry.internal:5000/provider-aws:v1.0.0", "registry.internal:5000/provider-gcp:v1.0.0", "registry.internal:5000/provider-aws:v2.0.0",
+		"registry.internal:5000/team/provider-aws:v1.0.0", "registry.internal:5000/team/platform/provider-gcp:v1.0.0", "registry.internal/provider-aws:v1.0.0"},
+	{"ghcr.io/provider-x:v1", "ghcr.io/provider-y:v1", "ghcr.io/provider-x@sha256:bbbbbbbbbbbbbbbbbbbbbbbbbbbbbbbbbbbbbbbbbbbbbbbbbbbbbbbbbbbbbbbb",
+		"ghcr.io/provider-x/provider-y:v1", "ghcr.io/acme/platform/provider-x:v1", "ghcr.io/acme/provider-y:v1"},
+	{"provider-bare:v1", "other-bare:v1", "acme", "provider-bare", "xpkg.upbound.io/provider-bare:v2", "provider-bare/provider-sub:v1"},
+}
+
 // family labels: equal, a proper prefix / extension of each other, differing in case only
 var c18Families = []string{"fam-a", "fam-a", "fam-a", "fam-a", "fam-a", "fam-b", "fam-ab", "fam", "Fam-A", ""}
 
@@ -532,6 +552,23 @@ func c18GenReconcile(r *Rng) c18Scn {
 	}
 	for i, n := 0, r.Intn(4); i < n; i++ {
 		s.PRs = append(s.PRs, c18GenMember(r, i))
+	}
+	// packages without an organisation segment, as target AND as family members of one label
+	if r.Chance(1, 7) {
+		grp := Pick(r, c18RootPkgs)
+		fam := Pick(r, []string{"fam-a", "fam-a", "fam-b"})
+		for i := range s.PRs {
+			if r.Chance(5, 6) {
+				s.PRs[i].Pkg = grp[r.Intn(len(grp))]
+				if r.Chance(2, 3) {
+					s.PRs[i].Pkg = grp[r.Intn(3)] // root-level
+				}
+			}
+			if r.Chance(5, 6) {
+				s.PRs[i].Family = fam
+			}
+		}
+		t = s.PRs[0]
 	}
 	switch x := r.Intn(20); {
 	case x < 12:
